@@ -1,7 +1,8 @@
 """Optimisation statements (#minimize / #maximize / weak constraints) under ngo's rewrites (property C02).
 
 Four families, every one with choice rules so that several answer sets with different costs exist and with
-input predicates carrying a weight column:
+input predicates carrying a weight column.  `out` always holds the choice predicate(s) only; helper
+predicates that merely carry an aggregate value stay internal so that unused / inline may touch them.
 
 * ``mm``   weight = result of a #min/#max rule or of a #min/#max directly in the objective body
            (minmax_chains: _replace_results_in_minimize / _create_replacement).  Side conditions spanned:
@@ -9,24 +10,27 @@ input predicates carrying a weight column:
            literal in the tuple (fires) vs group variable missing / anonymous (issue #8 check); another
            objective whose (weight,priority,terms) tuple potentially unifies (blocks) vs distinct priority /
            distinct constant / distinct length (fires); helper predicate vs aggregate directly in the body;
-           with a domain guard (so that clingo never sees an #inf/#sup weight) and without.
+           remaining body literals (rest_cond) that mention the result variable: a trivially true domain
+           guard, an independent guard `lvl(X)`, a comparison, a guard joined with the aggregate; no guard
+           at all (clingo then reports "tuple ignored: #inf@1", so only exceptions/safety are probed);
+           result summed up by a #sum rule that feeds the objective.
 * ``sum``  weight = result of #sum/#sum+/#count, through a helper rule or directly in the objective body
            (inline: inline_in_rulebody + inline_minimize, math+inline).  Weight is exactly the result variable
            (fires) vs `-X`, `2*X`, `X+1`; grouped with / without the group in the tuple (coinciding sums of
            different groups); anonymous group argument (has_anonymous_vars); two aggregate objectives with
            the same / non-unifying tuples / distinct priorities; an ordinary objective whose tuples coincide
-           with the inlined ones; two-element #sum.
+           with the inlined ones; two-element #sum; extra body literal.
 * ``amo``  weight = value argument of an at-most-one predicate (sum_chains: _get_var / _replace_optimize /
            _get_trigger / _calc_at_most).  Upper bound 1 / exactly 1 (fires) vs bound 2, no bound, a second
            deriving rule, predicate also input (near misses); weight `V`/`-V` vs arithmetic; weight variable
            also in the tuple or in a comparison (count != 1); group in the tuple / missing / anonymous;
-           conditional literal in the body; a second objective that unifies / cannot unify / has another
-           priority; multi-element #minimize.
+           conditional literal after / before the trigger; a second objective that unifies / cannot unify /
+           has another priority; multi-element #minimize.
 * ``plain`` objectives whose weight comes straight from an input column, through arithmetic or equalities in
            the body (normalize.exline_minimize_terms / inline_rule, math), through an otherwise unused helper
-           predicate (unused: analyze_usage / single copies), with anonymous arguments, a variable priority,
-           and multi-element #minimize over two derived predicates whose tuples unify / cannot unify /
-           partially unify.
+           predicate or a chain of copies (unused: analyze_usage / remove_single_copies), with anonymous
+           arguments, a variable or arithmetic priority, and multi-element #minimize over two derived
+           predicates whose tuples unify / cannot unify / partially unify.
 """
 import itertools
 
@@ -40,13 +44,14 @@ COMBOS = [
     ("max", "{v}", "max"),
 ]
 SHORT = [COMBOS[0], COMBOS[2], COMBOS[5]]
+SIGNED = [COMBOS[0], COMBOS[1], COMBOS[5]]
 TWO = [COMBOS[0], COMBOS[5]]
 
 
 def stmt(kind, weight, prio, terms, body):
     """one optimisation statement as text"""
     tup = "".join("," + t for t in terms)
-    cond = ", ".join(body)
+    cond = ("; " if any(" : " in b for b in body) else ", ").join(body)
     if kind == "weak":
         return f":~ {cond}. [{weight}@{prio}{tup}]"
     word = "#minimize" if kind == "min" else "#maximize"
@@ -61,8 +66,9 @@ def rec(lines, tag, inn, out):
 # family mm: result of #min/#max as weight
 # ----------------------------------------------------------------------------------------------
 
-# name -> (choice, helper rule or None, result literal / direct body, guard, terms, in, out)
+
 def _mm_variant(name, fun):
+    """(rules, result literals of the objective body, guard, tuple terms, in, out)"""
     if name == "flat":
         return (["{ sel(V) } :- val(V).", f"best(X) :- X = #{fun} {{ V : sel(V) }}."], ["best(X)"], "val(X)", [], [["val", 1]], [["sel", 1]])
     if name == "direct":
@@ -85,17 +91,31 @@ def _mm_variant(name, fun):
 
 def _mm():
     out = []
-    for name, fun, (kind, wf, wl) in itertools.product(
-        ["flat", "direct", "grp", "grp-notuple", "grp-anon", "direct-grp", "direct-grp-joinguard"], ["max", "min"], COMBOS
-    ):
+    names = ["flat", "direct", "grp", "grp-notuple", "grp-anon", "direct-grp", "direct-grp-joinguard"]
+    for name, fun, (kind, wf, wl) in itertools.product(names, ["max", "min"], COMBOS):
         if name.startswith("direct") and kind != "weak":
             continue  # clingo has no aggregates inside #minimize elements
+        if name == "grp-anon" and wl in ("w+1", "min", "negw"):
+            continue
+        if name == "direct-grp-joinguard" and wl in ("w+1", "2w"):
+            continue
         rules, lits, guard, terms, inn, outp = _mm_variant(name, fun)
         out.append(rec(rules + [stmt(kind, wf.format(v="X"), 1, terms, lits + [guard])], f"mm:{name}:{wl}", inn, outp))
-    # without the domain guard clingo reports "tuple ignored: #inf@1"; kept small (exceptions / safety only)
-    for name, fun in itertools.product(["flat", "grp", "direct"], ["max", "min"]):
-        rules, lits, guard, terms, inn, outp = _mm_variant(name, fun)
+    # without the domain guard clingo reports "tuple ignored: #inf@1" on every instance
+    for name in ("flat", "grp", "direct"):
+        rules, lits, guard, terms, inn, outp = _mm_variant(name, "max")
         out.append(rec(rules + [stmt("weak", "X", 1, terms, lits)], f"mm:{name}:noguard", inn, outp))
+    # guards that are not implied by the result: independent predicate, comparison
+    for name, fun, guard, (kind, wf, wl) in itertools.product(["flat", "grp"], ["max", "min"], ["lvl", "cmp"], SIGNED):
+        rules, lits, _, terms, inn, outp = _mm_variant(name, fun)
+        if guard == "lvl":
+            glit, inn = "lvl(X)", inn + [["lvl", 1]]
+        else:
+            glit = "X > 1" if fun == "max" else "X < 7"
+        out.append(rec(rules + [stmt(kind, wf.format(v="X"), 1, terms, lits + [glit])], f"mm:{name}:guard-{guard}:{wl}", inn, outp))
+    for fun in ("max", "min"):  # the result is also part of the tuple
+        rules, lits, guard, terms, inn, outp = _mm_variant("grp", fun)
+        out.append(rec(rules + [stmt("weak", "X", 1, terms + ["X"], lits + [guard])], "mm:grp:result-in-tuple", inn, outp))
     # a second / third objective: does its tuple unify with the one that is to be replaced
     seconds = [
         ("unify-shared-prio", ["P"], [stmt("weak", "V", 1, ["P"], ["sel(P,V)"])]),
@@ -107,9 +127,20 @@ def _mm():
         ("unify-constweight", ["P"], [stmt("weak", "1", 1, ["P"], ["sel(P,V)"])]),
         ("three-prios", ["P"], [stmt("weak", "V", 2, ["P"], ["sel(P,V)"]), stmt("max", "V", 3, [], ["sel(P,V)"])]),
     ]
-    for (tag, terms, extra), fun, wf in itertools.product(seconds, ["max", "min"], ["X", "-X"]):
+    for (tag, terms, extra), (fun, wf) in itertools.product(seconds, [("max", "X"), ("min", "X"), ("max", "-X")]):
         rules, lits, guard, _, inn, outp = _mm_variant("grp", fun)
         out.append(rec(rules + [stmt("weak", wf, 1, terms, lits + [guard])] + extra, f"mm:second:{tag}", inn, outp))
+    # the results are summed up by a rule (minmax: _replace_results_in_sum) and the sum is the weight
+    for fun, (tag, elem) in itertools.product(
+        ["max", "min"],
+        [
+            ("group-in-tuple", "X,P : best(P,X), skill(P,X)"),
+            ("group-missing", "X : best(P,X), skill(P,X)"),
+            ("negated", "-X,P : best(P,X), skill(P,X)"),
+        ],
+    ):
+        rules, _, _, _, inn, outp = _mm_variant("grp", fun)
+        out.append(rec(rules + [f"tot(S) :- S = #sum {{ {elem} }}.", stmt("weak", "S", 1, [], ["tot(S)"])], f"mm:sum-of-result:{tag}", inn, outp))
     return out
 
 
@@ -124,6 +155,8 @@ def _agg(fun, grouped, neg=False):
         atom = ("item(G,I,V), not " if grouped else "item(I,V), not ") + atom
     if fun == "count":
         return f"#count {{ I,V : {atom} }}"
+    if fun == "sum+":  # element weights below zero whatever the instance offers: #sum+ must ignore them
+        return f"#sum+ {{ V-2,I : {atom} }}"
     return f"#{fun} {{ V,I : {atom} }}"
 
 
@@ -152,14 +185,16 @@ def _sum_variant(name, fun):
 def _sum():
     out = []
     names = ["flat-helper", "flat-direct", "grp-helper", "grp-helper-notuple", "grp-helper-anon", "grp-direct", "grp-direct-notuple"]
-    for fun, combos in (("sum", COMBOS), ("count", SHORT), ("sum+", TWO)):
+    for fun, combos in (("sum", COMBOS), ("count", SHORT + [COMBOS[1]]), ("sum+", SIGNED)):
         for name, (kind, wf, wl) in itertools.product(names, combos):
             if name.endswith(("direct", "direct-notuple")) and kind != "weak":
                 continue  # clingo has no aggregates inside #minimize elements
             rules, lits, terms, inn, outp = _sum_variant(name, fun)
             out.append(rec(rules + [stmt(kind, wf.format(v="X"), 1, terms, lits)], f"sum:{fun}:{name}:{wl}", inn, outp))
-    # two aggregate objectives: same tuple / distinct priority / non-unifying constant / different length,
-    # and an ordinary objective whose tuples coincide with what inlining produces
+    for name in ("flat-helper", "flat-direct"):  # #sum+ plus a constant (math: new_sum)
+        rules, lits, terms, inn, outp = _sum_variant(name, "sum+")
+        out.append(rec(rules + [stmt("weak", "X+1", 1, terms, lits)], f"sum:sum+:{name}:w+1", inn, outp))
+    # two aggregate objectives: same tuple / distinct priority / non-unifying constant / different length
     pairs = [
         ("same-tuple", 1, [], 1, []),
         ("distinct-prio", 1, [], 2, []),
@@ -167,7 +202,7 @@ def _sum():
         ("same-const", 1, ["a"], 1, ["a"]),
         ("nonunify-length", 1, [], 1, ["a"]),
     ]
-    for (tag, p1, t1, p2, t2), helper, fun in itertools.product(pairs, [False, True], ["sum", "count"]):
+    for (tag, p1, t1, p2, t2), (helper, fun) in itertools.product(pairs, [(False, "sum"), (True, "sum"), (False, "count")]):
         rules = ["{ sel(I,V) } :- item(I,V)."]
         if helper:
             rules += [f"tot(X) :- X = {_agg(fun, False)}.", f"rest(X) :- X = {_agg(fun, False, True)}."]
@@ -176,9 +211,9 @@ def _sum():
             l1, l2 = [f"X = {_agg(fun, False)}"], [f"X = {_agg(fun, False, True)}"]
         rules += [stmt("weak", "X", p1, t1, l1), stmt("weak", "X", p2, t2, l2)]
         out.append(rec(rules, f"sum:pair:{tag}", [["item", 2]], [["sel", 2]]))
-    for helper, fun, (tag, second) in itertools.product(
-        [False, True],
-        ["sum", "count"],
+    # an ordinary objective whose tuples coincide with what inlining produces
+    for (helper, fun), (tag, second) in itertools.product(
+        [(False, "sum"), (True, "sum"), (False, "count")],
         [
             ("plain-collides", stmt("weak", "V", 1, ["I"], ["sel(I,V)"])),
             ("plain-collides-padded", stmt("weak", "V", 1, ["I", "unique"], ["sel(I,V)"])),
@@ -192,14 +227,17 @@ def _sum():
         else:
             l1 = [f"X = {_agg(fun, False)}"]
         out.append(rec(rules + [stmt("weak", "X", 1, [], l1), second], f"sum:{tag}", [["item", 2]], [["sel", 2]]))
+    # the result variable occurs a third time (tuple / priority): inline_minimize must not fire
+    for name, (tag, prio, terms) in itertools.product(["flat-helper", "flat-direct"], [("result-in-tuple", 1, ["X"]), ("result-as-priority", "X", [])]):
+        rules, lits, _, inn, outp = _sum_variant(name, "sum")
+        out.append(rec(rules + [stmt("weak", "X", prio, terms, lits)], f"sum:{name}:{tag}", inn, outp))
     # two elements inside the aggregate, extra body literal
     for tag, elems in (
         ("two-elems-unify", "V,I : sel(I,V); W,J : bonus(J,W)"),
         ("two-elems-distinct", "V,I,a : sel(I,V); W,J,b : bonus(J,W)"),
     ):
-        for kind in ("weak",):
-            rules = ["{ sel(I,V) } :- item(I,V).", stmt(kind, "X", 1, [], [f"X = #sum {{ {elems} }}"])]
-            out.append(rec(rules, f"sum:{tag}", [["item", 2], ["bonus", 2]], [["sel", 2]]))
+        rules = ["{ sel(I,V) } :- item(I,V).", stmt("weak", "X", 1, [], [f"X = #sum {{ {elems} }}"])]
+        out.append(rec(rules, f"sum:{tag}", [["item", 2], ["bonus", 2]], [["sel", 2]]))
     for fun in ("sum", "count"):
         rules = ["{ sel(I,V) } :- item(I,V).", "{ on }.", stmt("weak", "X", 1, [], ["on", f"X = {_agg(fun, False)}"])]
         out.append(rec(rules, "sum:extra-body-literal", [["item", 2]], [["sel", 2], ["on", 0]]))
@@ -227,46 +265,51 @@ AMO_STMTS = [
     ("group-in-tuple", ["assign(T,V)"], ["T"]),
     ("group-missing", ["assign(T,V)"], []),
     ("group-anon", ["assign(_,V)"], []),
-    ("weight-in-tuple", ["assign(T,V)"], ["T", "V"]),
     ("extra-literal", ["assign(T,V)", "hard(T)"], ["T"]),
+    ("weight-in-tuple", ["assign(T,V)"], ["T", "V"]),
     ("weight-compared", ["assign(T,V)", "V > 1"], ["T"]),
     ("conditional", ["assign(T,V)", "hard(T) : task(T)"], ["T"]),
+    ("conditional-first", ["hard(T) : task(T)", "assign(T,V)"], ["T"]),
 ]
 
 
 def _amo():
     out = []
     for (sl, body, terms), (kind, wf, wl) in itertools.product(AMO_STMTS, COMBOS):
-        if sl in ("weight-in-tuple", "weight-compared", "conditional") and wl in ("w+1", "min", "negw"):
+        if sl in ("weight-in-tuple", "weight-compared", "conditional", "conditional-first") and wl in ("w+1", "min", "negw"):
             continue
-        if sl == "conditional" and kind != "weak":
+        if sl.startswith("conditional") and kind != "weak":
             continue  # no conditional literals inside #minimize elements
         rules, inn = AMO_HEADS["ub1"]
         out.append(rec(rules + [stmt(kind, wf.format(v="V"), 1, terms, body)], f"amo:ub1:{sl}:{wl}", inn, AMO_OUT))
-    for head, (sl, body, terms), (kind, wf, wl) in itertools.product(["eq1", "dom2"], AMO_STMTS[:3], SHORT):
-        rules, inn = AMO_HEADS[head]
-        out.append(rec(rules + [stmt(kind, wf.format(v="V"), 1, terms, body)], f"amo:{head}:{sl}:{wl}", inn, AMO_OUT))
+    for (head, combos), (sl, body, terms) in itertools.product([("eq1", SHORT), ("dom2", TWO)], AMO_STMTS[:3]):
+        for kind, wf, wl in combos:
+            rules, inn = AMO_HEADS[head]
+            out.append(rec(rules + [stmt(kind, wf.format(v="V"), 1, terms, body)], f"amo:{head}:{sl}:{wl}", inn, AMO_OUT))
     for head, (kind, wf, wl) in itertools.product(["ub2", "nobound", "tworules", "alsoinput", "sumhead"], TWO):
         rules, inn = AMO_HEADS[head]
-        out.append(rec(rules + [stmt(kind, wf.format(v="V"), 1, ["T"], ["assign(T,V)"])], f"amo:{head}:near-miss:{wl}", inn, AMO_OUT))
-    for bound, (kind, wf, wl) in itertools.product(["1", "2"], COMBOS):
-        rules = [f"{{ pick(V) : val(V) }} {bound}."]
-        out.append(rec(rules + [stmt(kind, wf.format(v="V"), 1, [], ["pick(V)"])], f"amo:flat-ub{bound}:{wl}", [["val", 1]], [["pick", 1]]))
+        body = ["assign(T,V)", "task(T)"] if head == "alsoinput" else ["assign(T,V)"]
+        out.append(rec(rules + [stmt(kind, wf.format(v="V"), 1, ["T"], body)], f"amo:{head}:near-miss:{wl}", inn, AMO_OUT))
+    for bound, combos in (("1", COMBOS), ("2", SHORT)):
+        for kind, wf, wl in combos:
+            rules = [f"{{ pick(V) : val(V) }} {bound}."]
+            out.append(rec(rules + [stmt(kind, wf.format(v="V"), 1, [], ["pick(V)"])], f"amo:flat-ub{bound}:{wl}", [["val", 1]], [["pick", 1]]))
     # second objective over another weight column
     seconds = [
         ("unify-shared-prio", ["T"], [stmt("weak", "W", 1, ["T"], ["assign(T,V)", "pen(T,W)"])]),
         ("distinct-prio", ["T"], [stmt("weak", "W", 2, ["T"], ["assign(T,V)", "pen(T,W)"])]),
         ("nonunify-const", ["T", "a"], [stmt("weak", "W", 1, ["T", "b"], ["assign(T,V)", "pen(T,W)"])]),
         ("unify-renamed", ["T", "a"], [stmt("weak", "W", 1, ["S", "a"], ["assign(S,V)", "pen(S,W)"])]),
+        ("both-replaceable", ["T"], [stmt("max", "V", 2, ["T"], ["assign(T,V)"])]),
         ("unify-crossed", ["T", "a"], [stmt("weak", "W", 1, ["a", "T"], ["assign(T,V)", "pen(T,W)"])]),
         ("nonunify-length", ["T"], [stmt("weak", "W", 1, [], ["assign(T,V)", "pen(T,W)"])]),
         ("unify-constweight", ["T"], [stmt("weak", "1", 1, ["T"], ["assign(T,V)"])]),
         ("three-prios", ["T"], [stmt("weak", "W", 2, ["T"], ["assign(T,V)", "pen(T,W)"]), stmt("max", "1", 3, ["T"], ["assign(T,V)"])]),
-        ("both-replaceable", ["T"], [stmt("max", "V", 2, ["T"], ["assign(T,V)"])]),
     ]
     rules, inn = AMO_HEADS["ub1"]
-    for (tag, terms, extra), wf in itertools.product(seconds, ["V", "-V"]):
-        out.append(rec(rules + [stmt("weak", wf, 1, terms, ["assign(T,V)"])] + extra, f"amo:second:{tag}", inn + [["pen", 2]], AMO_OUT))
+    for idx, (tag, terms, extra) in enumerate(seconds):
+        for wf in ["V", "-V"] if idx < 5 else ["V"]:
+            out.append(rec(rules + [stmt("weak", wf, 1, terms, ["assign(T,V)"])] + extra, f"amo:second:{tag}", inn + [["pen", 2]], AMO_OUT))
     for tag, elems in (
         ("elems-unify", "V@1,T : assign(T,V); W@1,T : used(T), pen(T,W)"),
         ("elems-distinct-const", "V@1,T,a : assign(T,V); W@1,T,b : used(T), pen(T,W)"),
@@ -287,42 +330,46 @@ def _plain():
     out = []
     choice = "{ sel(X) } :- dom(X)."
     inn, outp = [["dom", 1], ["w", 2]], [["sel", 1]]
-    # (label, extra rules, body, weight variable, terms)
+    # (label, extra rules, body, weight variable, terms, weight forms)
     bodies = [
-        ("input-column", [], ["sel(X)", "w(X,W)"], "W", ["X"]),
-        ("input-column-coincide", [], ["sel(X)", "w(X,W)"], "W", []),
-        ("helper-unused", ["cost(X,W) :- sel(X), w(X,W)."], ["cost(X,W)"], "W", ["X"]),
-        ("helper-unused-coincide", ["cost(X,W) :- sel(X), w(X,W)."], ["cost(X,W)"], "W", []),
-        ("helper-copy", ["chosen(X) :- sel(X)."], ["chosen(X)", "w(X,W)"], "W", ["X"]),
-        ("helper-arith-head", ["cost(X,2*W) :- sel(X), w(X,W)."], ["cost(X,Y)"], "Y", ["X"]),
-        ("equality", [], ["sel(X)", "w(X,W)", "Y = W*2"], "Y", ["X"]),
-        ("equality-chain", [], ["sel(X)", "w(X,W)", "Y = W+1", "Z = Y-1"], "Z", ["X"]),
-        ("equality-neg", [], ["sel(X)", "w(X,W)", "Y = -W"], "Y", ["X"]),
-        ("equality-two-columns", [], ["sel(X)", "w(X,W)", "w(X,U)", "Y = W+U", "W < U"], "Y", ["X"]),
+        ("input-column", [], ["sel(X)", "w(X,W)"], "W", ["X"], COMBOS),
+        ("input-column-coincide", [], ["sel(X)", "w(X,W)"], "W", [], SHORT),
+        ("helper-unused", ["cost(X,W) :- sel(X), w(X,W)."], ["cost(X,W)"], "W", ["X"], COMBOS),
+        ("helper-unused-coincide", ["cost(X,W) :- sel(X), w(X,W)."], ["cost(X,W)"], "W", [], SHORT),
+        ("helper-copy", ["chosen(X) :- sel(X)."], ["chosen(X)", "w(X,W)"], "W", ["X"], SHORT),
+        ("helper-copy-chain", ["picked(X) :- sel(X).", "chosen(X) :- picked(X)."], ["chosen(X)", "w(X,W)"], "W", ["X"], SHORT),
+        ("helper-arith-head", ["cost(X,2*W) :- sel(X), w(X,W)."], ["cost(X,Y)"], "Y", ["X"], COMBOS),
+        ("equality", [], ["sel(X)", "w(X,W)", "Y = W*2"], "Y", ["X"], COMBOS),
+        ("equality-chain", [], ["sel(X)", "w(X,W)", "Y = W+1", "Z = Y-1"], "Z", ["X"], COMBOS),
+        ("equality-neg", [], ["sel(X)", "w(X,W)", "Y = -W"], "Y", ["X"], SHORT),
+        ("equality-two-columns", [], ["sel(X)", "w(X,W)", "w(X,U)", "Y = W+U", "W < U"], "Y", ["X"], COMBOS),
     ]
-    for (bl, extra, body, var, terms), (kind, wf, wl) in itertools.product(bodies, COMBOS):
-        out.append(rec([choice] + extra + [stmt(kind, wf.format(v=var), 1, terms, body)], f"plain:{bl}:{wl}", inn, outp))
+    for bl, extra, body, var, terms, combos in bodies:
+        for kind, wf, wl in combos:
+            out.append(rec([choice] + extra + [stmt(kind, wf.format(v=var), 1, terms, body)], f"plain:{bl}:{wl}", inn, outp))
     # arity-3 weight table with an anonymous argument, priority taken from a column, function term in tuple
+    in3 = [["dom", 1], ["w", 3]]
     for kind, wf, wl in SHORT:
-        out.append(rec([choice, stmt(kind, wf.format(v="W"), 1, ["X"], ["sel(X)", "w(X,_,W)"])], f"plain:anon-arg:{wl}", [["dom", 1], ["w", 3]], outp))
-        out.append(rec([choice, stmt(kind, wf.format(v="W"), "P", ["X"], ["sel(X)", "w(X,P,W)"])], f"plain:var-priority:{wl}", [["dom", 1], ["w", 3]], outp))
+        out.append(rec([choice, stmt(kind, wf.format(v="W"), 1, ["X"], ["sel(X)", "w(X,_,W)"])], f"plain:anon-arg:{wl}", in3, outp))
+        out.append(rec([choice, stmt(kind, wf.format(v="W"), "P", ["X"], ["sel(X)", "w(X,P,W)"])], f"plain:var-priority:{wl}", in3, outp))
         out.append(rec([choice, stmt(kind, wf.format(v="W"), 1, ["f(X)"], ["sel(X)", "w(X,W)"])], f"plain:function-term:{wl}", inn, outp))
-        out.append(rec([choice, stmt(kind, wf.format(v="W"), "P+1", ["X"], ["sel(X)", "w(X,P,W)"])], f"plain:arith-priority:{wl}", [["dom", 1], ["w", 3]], outp))
+        out.append(rec([choice, stmt(kind, wf.format(v="W"), "P+1", ["X"], ["sel(X)", "w(X,P,W)"])], f"plain:arith-priority:{wl}", in3, outp))
     # multi-element #minimize over two derived predicates
     rules = [choice, "p(X,W) :- sel(X), a(X,W).", "q(X,W) :- not sel(X), b(X,W)."]
     inn2 = [["dom", 1], ["a", 2], ["b", 2]]
     elems = [
         ("unify", "W,X : p(X,W); W,X : q(X,W)"),
-        ("unify-renamed", "W,X : p(X,W); U,Y : q(Y,U)"),
         ("nonunify-const", "W,X,a : p(X,W); W,X,b : q(X,W)"),
         ("partial-unify", "W,X,a : p(X,W); W,a,X : q(X,W)"),
+        ("neg-second", "W,X : p(X,W); -W,X : q(X,W)"),
+        ("unify-renamed", "W,X : p(X,W); U,Y : q(Y,U)"),
         ("nonunify-length", "W,X : p(X,W); W : q(X,W)"),
         ("distinct-prio", "W@1,X : p(X,W); W@2,X : q(X,W)"),
-        ("neg-second", "W,X : p(X,W); -W,X : q(X,W)"),
         ("anon-second", "W,X : p(X,W); W : q(_,W)"),
     ]
-    for (tag, el), word in itertools.product(elems, ["#minimize", "#maximize"]):
-        out.append(rec(rules + [f"{word} {{ {el} }}."], f"plain:elems:{tag}", inn2, outp))
+    for idx, (tag, el) in enumerate(elems):
+        for word in ["#minimize", "#maximize"] if idx < 4 else ["#minimize"]:
+            out.append(rec(rules + [f"{word} {{ {el} }}."], f"plain:elems:{tag}", inn2, outp))
     # three statements, shared / distinct priorities, weights from different columns that coincide
     for p1, p2, p3 in ((1, 1, 1), (1, 2, 3), (2, 1, 2)):
         prg = rules + [
